@@ -274,7 +274,11 @@ def receiveChecks (r : NRef) (port : Nat) (src : String) (d : Bytes) (attack : B
       let ownPt : Int := ((r.cfgOf port "pt").toNat?.getD 0 : Nat)
       if after.peers.any (fun q => match before.peers.find? (fun p => p.addr = q.addr && p.nodeId = q.nodeId) with
           | some p => q.timeout ≠ p.timeout && q.timeout ≠ r.now + ownPt
-          | none => q.timeout ≠ r.now + ownPt) then some "C15 peer expiry is not last-heard time + the configured peer timeout"
+          | none => q.timeout ≠ r.now + ownPt) then
+        let bad := after.peers.filter (fun q => match before.peers.find? (fun p => p.addr = q.addr && p.nodeId = q.nodeId) with
+          | some p => q.timeout ≠ p.timeout && q.timeout ≠ r.now + ownPt
+          | none => q.timeout ≠ r.now + ownPt)
+        some s!"C15 peer expiry is not last-heard time + the configured peer timeout ({bad.map (fun q => (q.addr, q.timeout))} at time {r.now}, own timeout {ownPt})"
       -- C10: nothing received is relayed: non-handshake datagrams go back to the sender only
       else if outs.any (fun (_, dst, b) => b.head? ≠ some 255 && dst ≠ src && !b.isEmpty) then some "C10 a received datagram caused a non-handshake datagram to a third party (relaying)"
       else if tr.isSome && !outs.isEmpty then some "C10 a received payload datagram caused datagrams on the wire"
